@@ -191,6 +191,83 @@ ImplNear(inp, g, q, rho) ==
 \* every stored atom has a cell inside the grid (no out-of-bounds write in __cinit__)
 ImplCellsInGrid(g) == \A m \in DOMAIN g.C : \A d \in 1..3 : g.ac[m][d] >= 0 /\ g.ac[m][d] < g.cnt[d]
 
+(* ------------------------------------------------------------------ construction forms *)
+(* HOW a cell list is constructed.  A form is  <<container, own, explicit, periodic>>:
+     container  "nd" the coordinates are passed as an ndarray, "aa" as an AtomArray
+     own        <<>> or <<B>>: the box attribute of the AtomArray (always <<>> for "nd")
+     explicit   <<>> or <<B>>: the box= parameter of the constructor
+     periodic   the periodic= flag
+   Documentation of CellList: box "If provided, the periodicity is based on this parameter
+   instead of the box attribute of atom_array.  Only has an effect, if periodic is True";
+   coordinates passed directly: "In this case box must be set" (when periodic).  So the box
+   the minimum-image distances refer to is EffBox(form): the explicit one OVERRIDES the
+   array's own one, a box without periodic=True is ignored, and periodic=True without any
+   box is refused (any exception: the statement names none). *)
+Containers == {"nd", "aa"}
+Dom_Form(f) == /\ f[1] \in Containers /\ f[4] \in BOOLEAN
+               /\ Dom_Box(f[2]) /\ Dom_Box(f[3]) /\ (f[1] = "nd" => f[2] = <<>>)
+FormOutcome(f) == IF f[4] /\ f[2] = <<>> /\ f[3] = <<>> THEN "Rejected" ELSE "ok"
+EffBox(f) == IF ~f[4] THEN <<>> ELSE IF f[3] # <<>> THEN f[3] ELSE f[2]
+FormInput(atoms, cs, sel, f) == <<atoms, cs, EffBox(f), sel>>
+FormsOver(BX) == LET O == {<<>>} \cup {<<b>> : b \in BX} IN
+  {<<"nd", <<>>, e, p>> : e \in O, p \in BOOLEAN} \cup {<<"aa", o, e, p>> : o \in O, e \in O, p \in BOOLEAN}
+
+(* ------------------------------------------------------------------ the caller's arrays *)
+(* WHAT KIND of array holds the values.  The property speaks about coordinates, radii,
+   boxes and selections as VALUES; every array that holds the same values must give the same
+   answer, whatever its element type and memory form:
+     f4 / f8 float32 / float64, i8 / i4 integers, suffix F = column-major (Fortran order, the
+     layout of np.array([x, y, z]).T), rows = every second row of a larger array, cols = every
+     second column of a larger array (last axis NOT contiguous), rev = both axes reversed
+     (negative strides), strided = every second element (1-D), ro = write-protected.
+   f4 is exactly the element type the cell list works in (astype(float32, copy=False) hands
+   the caller's own memory to the compiled loops), which is why it is a class of its own.
+   Dom_Kind: an integer kind can hold the values only if they are integers (tick denominator
+   1; integer radii).  RefusableKinds: a write-protected array of exactly the internal element
+   type and a selection that is not one contiguous writable block MAY be refused by a call
+   (outcome "Rejected" = any exception, nothing changed) - the statement is silent about
+   them; if the call answers, the answer must be exact.  Every other kind must be served. *)
+CoordKindSeq == <<"f4", "f8", "f4F", "i8", "f4cols", "f8F", "f4rows", "f4rev", "f8cols", "i4", "f8ro", "f4ro">>
+RadiiKindSeq == <<"f4", "f8", "f4strided", "i8", "f4rev", "f8ro", "f8strided", "f4ro">>
+SelKindSeq   == <<"b", "bstrided", "bro">>
+CoordKinds == {CoordKindSeq[i] : i \in DOMAIN CoordKindSeq}
+RadiiKinds == {RadiiKindSeq[i] : i \in DOMAIN RadiiKindSeq}
+SelKinds   == {SelKindSeq[i] : i \in DOMAIN SelKindSeq}
+IntKinds == {"i8", "i4"}
+RefusableKinds == {"f4ro", "bstrided", "bro"}
+\* kinds = <<coordinates, queries, radii, selection, box>> (boxes are 3x3 arrays: coordinate kinds)
+Dom_Kinds(kinds) == /\ kinds[1] \in CoordKinds /\ kinds[2] \in CoordKinds /\ kinds[3] \in RadiiKinds
+                    /\ kinds[4] \in SelKinds /\ kinds[5] \in CoordKinds
+\* den = denominator of the ticks (1: integer values); rhos = the squared radii held by the radii array
+Dom_KindValues(kinds, den, rhos) ==
+  /\ (\E i \in {1, 2, 3, 5} : kinds[i] \in IntKinds) => den = 1
+  /\ kinds[3] \in IntKinds => \A j \in DOMAIN rhos : rhos[j][2] = 1
+MayRefuseConstruct(kinds) == kinds[1] \in RefusableKinds \/ kinds[4] \in RefusableKinds \/ kinds[5] \in RefusableKinds
+
+(* ------------------------------------------------------------------ sessions *)
+(* A session is a history of public calls on ONE cell list with the SAME argument objects.
+   args = <<Q, rhos, r0, cells, c0>>: query points, per-query squared radii, scalar squared
+   radius, per-query cell radii, scalar cell radius - the values held by the caller's arrays.
+   A CellList is immutable after construction and every call works on its own copies:
+   ArgsAfter(op, args) = args, so every call of a history has the answer of a first call on
+   the values the arrays were made from.  CallResult gives the answer as bit masks (BitsOf);
+   for the cell queries it is the set the answer must CONTAIN (CallRelation). *)
+CallOpSeq == <<"near", "near_mask", "multi", "multi_mask", "single", "cells", "cells_multi_mask", "adj">>
+CallOps == {CallOpSeq[i] : i \in DOMAIN CallOpSeq}
+CallResult(inp, args, op) ==
+  CASE op \in {"near", "near_mask"}   -> [j \in DOMAIN args[1] |-> BitsOf(Near(inp, args[1][j], args[3]))]
+    [] op \in {"multi", "multi_mask"} -> [j \in DOMAIN args[1] |-> BitsOf(Near(inp, args[1][j], args[2][j]))]
+    [] op = "single"                  -> <<BitsOf(Near(inp, args[1][1], args[3]))>>
+    [] op = "cells"                   -> [j \in DOMAIN args[1] |-> BitsOf(MustInCells(inp, args[1][j], args[5]))]
+    [] op = "cells_multi_mask"        -> [j \in DOMAIN args[1] |-> BitsOf(MustInCells(inp, args[1][j], args[4][j]))]
+    [] op = "adj"                     -> [a \in 1..N(inp) |-> BitsOf(AdjRow(inp, a, args[3]))]
+CallRelation(op) == IF op \in {"cells", "cells_multi_mask"} THEN "contains" ELSE "equals"
+ArgsAfter(op, args) == args
+\* the arrays a call reads: the queries (all but adj), the radii array (per-query forms)
+MayRefuseCall(op, kinds) ==
+  \/ op # "adj" /\ kinds[2] \in RefusableKinds
+  \/ op \in {"multi", "multi_mask"} /\ kinds[3] \in RefusableKinds
+
 \* (the two expensive facts about the tabulated boxes - the search over images -2..2 is
 \* stable against -3..3, and every box satisfies Dom_Images27 - are ASSUMEd in CellGrid.tla,
 \* i.e. evaluated once per check in S1 and not again by every trace validation run)
